@@ -98,14 +98,17 @@ package identity
 // permutes. Only the index fields of queued items change. The clauses of the form old(P(q)) ==> P(q) are consequences
 // of "the new slots are old slots", stated explicitly to spare the solver the permutation argument.
 // wfPQ(q) (defined in package utils): every slot holds a non-nil item whose index field is its slot
+// All per-slot macros quantify over ABSOLUTE positions i of the backing array (slot k of q is elems(q)[off(q)+k]) with the
+// slot read elems(q)[i] as explicit trigger: the solvers then never have to match index arithmetic, which made the same
+// proofs flip between 0.3 s and a timeout.
 // qAlloc(q): the slots hold allocated objects (so a freshly allocated item is none of them)
-//@ ghost func qAlloc(q utils.PriorityQueue) bool = forall k int :: 0 <= k && k < len(q) ==> allocated(q[k])
+//@ ghost func qAlloc(q utils.PriorityQueue) bool = forall i int :: { elems(q)[i] } off(q) <= i && i < off(q) + len(q) ==> allocated(elems(q)[i])
 // qMax(arr(q)): ghost upper bound on the priorities queued in q (attached to the backing array; heap.Init chooses it,
 // heap.Pop lowers it to the priority it returns: everything left is at most the maximum just removed)
 //@ model qMax(utils.PriorityQueue) int
-//@ ghost func qBound(q utils.PriorityQueue) bool = forall k int :: 0 <= k && k < len(q) ==> q[k].priority <= qMax(arr(q))
+//@ ghost func qBound(q utils.PriorityQueue) bool = forall i int :: { elems(q)[i] } off(q) <= i && i < off(q) + len(q) ==> as(elems(q)[i], "*utils.Queued").priority <= qMax(arr(q))
 // qNonNeg(q): no queued priority is negative
-//@ ghost func qNonNeg(q utils.PriorityQueue) bool = forall k int :: 0 <= k && k < len(q) ==> q[k].priority >= 0
+//@ ghost func qNonNeg(q utils.PriorityQueue) bool = forall i int :: { elems(q)[i] } off(q) <= i && i < off(q) + len(q) ==> as(elems(q)[i], "*utils.Queued").priority >= 0
 // Ghost witnesses "every remaining slot is an old slot" (fresh per call, keyed by the ITEM so that the only index terms
 // are slot reads). That no item is duplicated or lost is carried by the lengths and by wfPQ (index field == slot, the
 // invariant utils.PriorityQueue.{Swap,Push,Pop} are proved to maintain), not by a separate injectivity clause.
@@ -130,9 +133,9 @@ package identity
 //@   ensures arr(vq.PriorityQueue) == old(arr(vq.PriorityQueue))
 //@   ensures old(len(vq.PriorityQueue)) == 0 ==> result == nil && len(vq.PriorityQueue) == 0
 //@   ensures old(len(vq.PriorityQueue)) > 0 ==> len(vq.PriorityQueue) == old(len(vq.PriorityQueue)) - 1 && 0 <= popSlot(result) && popSlot(result) < old(len(vq.PriorityQueue)) && result == old(elems(vq.PriorityQueue))[old(off(vq.PriorityQueue)) + popSlot(result)]
-//@   ensures forall k int :: 0 <= k && k < len(vq.PriorityQueue) ==> 0 <= popFrom(result)[vq.PriorityQueue[k]] && popFrom(result)[vq.PriorityQueue[k]] < old(len(vq.PriorityQueue)) && popFrom(result)[vq.PriorityQueue[k]] != popSlot(result) && vq.PriorityQueue[k] == old(elems(vq.PriorityQueue))[old(off(vq.PriorityQueue)) + popFrom(result)[vq.PriorityQueue[k]]]
+//@   ensures forall i int :: { elems(vq.PriorityQueue)[i] } off(vq.PriorityQueue) <= i && i < off(vq.PriorityQueue) + len(vq.PriorityQueue) ==> 0 <= popFrom(result)[elems(vq.PriorityQueue)[i]] && popFrom(result)[elems(vq.PriorityQueue)[i]] < old(len(vq.PriorityQueue)) && popFrom(result)[elems(vq.PriorityQueue)[i]] != popSlot(result) && elems(vq.PriorityQueue)[i] == old(elems(vq.PriorityQueue))[old(off(vq.PriorityQueue)) + popFrom(result)[elems(vq.PriorityQueue)[i]]]
 //@   ensures old(wfPQ(vq.PriorityQueue)) ==> wfPQ(vq.PriorityQueue) && (old(len(vq.PriorityQueue)) > 0 ==> result != nil)
-//@   ensures old(wfPQ(vq.PriorityQueue)) ==> forall k int :: 0 <= k && k < len(vq.PriorityQueue) ==> vq.PriorityQueue[k].priority <= result.priority
+//@   ensures old(wfPQ(vq.PriorityQueue)) ==> forall i int :: { elems(vq.PriorityQueue)[i] } off(vq.PriorityQueue) <= i && i < off(vq.PriorityQueue) + len(vq.PriorityQueue) ==> as(elems(vq.PriorityQueue)[i], "*utils.Queued").priority <= result.priority
 //@   ensures old(len(vq.PriorityQueue)) == 0 ==> qMax(arr(vq.PriorityQueue)) == old(qMax(arr(vq.PriorityQueue)))
 //@   ensures old(len(vq.PriorityQueue)) > 0 && old(wfPQ(vq.PriorityQueue)) ==> qMax(arr(vq.PriorityQueue)) == result.priority && qBound(vq.PriorityQueue)
 //@   ensures old(len(vq.PriorityQueue)) > 0 && old(qBound(vq.PriorityQueue)) ==> result.priority <= old(qMax(arr(vq.PriorityQueue)))
@@ -146,16 +149,16 @@ package identity
 // itemOfVal(<nil item>)[v]: ghost bookkeeping "the item last pushed with value v" (one global ghost array, keyed by nil);
 // it makes "queued values are pairwise different" a per-slot fact: itemOfVal(as(0, "*utils.Queued"))[q[k].value] == q[k]
 //@ model itemOfVal(*utils.Queued) array[string]int
-//@ ghost func qValIdx(q utils.PriorityQueue) bool = forall k int :: 0 <= k && k < len(q) ==> itemOfVal(as(0, "*utils.Queued"))[str(q[k].value)] == q[k]
+//@ ghost func qValIdx(q utils.PriorityQueue) bool = forall i int :: { elems(q)[i] } off(q) <= i && i < off(q) + len(q) ==> itemOfVal(as(0, "*utils.Queued"))[str(as(elems(q)[i], "*utils.Queued").value)] == elems(q)[i]
 //@ assume func (*ValidatorQueue).Push
 //@   requires vq != nil && queued != nil
 //@   modifies vq.PriorityQueue, elems(vq.PriorityQueue), heap("utils.Queued"), allmodel("pushFrom"), itemOfVal(as(0, "*utils.Queued"))
 //@   ensures itemOfVal(as(0, "*utils.Queued")) == old(itemOfVal(as(0, "*utils.Queued")))[str(queued.value) := queued]
-//@   ensures old(wfPQ(vq.PriorityQueue)) && old(forall j int :: 0 <= j && j < len(vq.PriorityQueue) ==> vq.PriorityQueue[j] != queued) ==> wfPQ(vq.PriorityQueue)
+//@   ensures old(wfPQ(vq.PriorityQueue)) && old(forall i int :: { elems(vq.PriorityQueue)[i] } off(vq.PriorityQueue) <= i && i < off(vq.PriorityQueue) + len(vq.PriorityQueue) ==> elems(vq.PriorityQueue)[i] != queued) ==> wfPQ(vq.PriorityQueue)
 //@   ensures forall q *utils.Queued :: q.priority == old(q.priority) && q.value == old(q.value)
 //@   ensures len(vq.PriorityQueue) == old(len(vq.PriorityQueue)) + 1 && arr(vq.PriorityQueue) != 0
-//@   ensures forall k int :: 0 <= k && k < len(vq.PriorityQueue) ==> vq.PriorityQueue[k] == queued || (0 <= pushFrom(queued)[vq.PriorityQueue[k]] && pushFrom(queued)[vq.PriorityQueue[k]] < old(len(vq.PriorityQueue)) && vq.PriorityQueue[k] == old(elems(vq.PriorityQueue))[old(off(vq.PriorityQueue)) + pushFrom(queued)[vq.PriorityQueue[k]]])
-//@   ensures old(forall j int :: 0 <= j && j < len(vq.PriorityQueue) ==> vq.PriorityQueue[j] != queued) ==> forall k int, l int :: 0 <= k && k < l && l < len(vq.PriorityQueue) ==> vq.PriorityQueue[k] != queued || vq.PriorityQueue[l] != queued
+//@   ensures forall i int :: { elems(vq.PriorityQueue)[i] } off(vq.PriorityQueue) <= i && i < off(vq.PriorityQueue) + len(vq.PriorityQueue) ==> elems(vq.PriorityQueue)[i] == queued || (0 <= pushFrom(queued)[elems(vq.PriorityQueue)[i]] && pushFrom(queued)[elems(vq.PriorityQueue)[i]] < old(len(vq.PriorityQueue)) && elems(vq.PriorityQueue)[i] == old(elems(vq.PriorityQueue))[old(off(vq.PriorityQueue)) + pushFrom(queued)[elems(vq.PriorityQueue)[i]]])
+//@   ensures old(forall i int :: { elems(vq.PriorityQueue)[i] } off(vq.PriorityQueue) <= i && i < off(vq.PriorityQueue) + len(vq.PriorityQueue) ==> elems(vq.PriorityQueue)[i] != queued) ==> forall i int, j int :: { elems(vq.PriorityQueue)[i], elems(vq.PriorityQueue)[j] } off(vq.PriorityQueue) <= i && i < j && j < off(vq.PriorityQueue) + len(vq.PriorityQueue) ==> elems(vq.PriorityQueue)[i] != queued || elems(vq.PriorityQueue)[j] != queued
 //@   ensures old(qAlloc(vq.PriorityQueue)) ==> qAlloc(vq.PriorityQueue)
 
 //@ model initFrom(*ValidatorQueue) array[int]int
@@ -164,39 +167,40 @@ package identity
 //@   modifies elems(vq.PriorityQueue), heap("utils.Queued"), initFrom(vq), qMax(arr(vq.PriorityQueue))
 //@   ensures qBound(vq.PriorityQueue)
 //@   ensures forall q *utils.Queued :: q.priority == old(q.priority) && q.value == old(q.value)
-//@   ensures forall k int :: 0 <= k && k < len(vq.PriorityQueue) ==> 0 <= initFrom(vq)[vq.PriorityQueue[k]] && initFrom(vq)[vq.PriorityQueue[k]] < len(vq.PriorityQueue) && vq.PriorityQueue[k] == old(elems(vq.PriorityQueue))[old(off(vq.PriorityQueue)) + initFrom(vq)[vq.PriorityQueue[k]]]
+//@   ensures forall i int :: { elems(vq.PriorityQueue)[i] } off(vq.PriorityQueue) <= i && i < off(vq.PriorityQueue) + len(vq.PriorityQueue) ==> 0 <= initFrom(vq)[elems(vq.PriorityQueue)[i]] && initFrom(vq)[elems(vq.PriorityQueue)[i]] < len(vq.PriorityQueue) && elems(vq.PriorityQueue)[i] == old(elems(vq.PriorityQueue))[old(off(vq.PriorityQueue)) + initFrom(vq)[elems(vq.PriorityQueue)[i]]]
 //@   ensures old(wfPQ(vq.PriorityQueue)) ==> wfPQ(vq.PriorityQueue)
 //@   ensures old(qAlloc(vq.PriorityQueue)) ==> qAlloc(vq.PriorityQueue)
 //@   ensures old(qValIdx(vq.PriorityQueue)) ==> qValIdx(vq.PriorityQueue)
 //@   ensures forall row array[string]bytes, pfx bytes :: old(qItemsAt(vq.PriorityQueue, row, pfx)) ==> qItemsAt(vq.PriorityQueue, row, pfx)
 
-// the store iteration visits each stored validator address once (IAVL range over the prefix): ASSUMED.
-// vkeys(vs)[n] is the n-th visited address, kpos(vs) its inverse (so visits are pairwise different), vcount(vs) their number.
-//@ model vkeys(*ValidatorStore) array[int]string
-//@ model kpos(*ValidatorStore) array[string]int
-//@ model vcount(*ValidatorStore) int
-//@ assume func (*ValidatorStore).Iterate
-//@   iterator
-//@   modifies nothing
-//@   count vcount(vs)
-//@   yields 0 <= $n && $n < vcount(vs) && str(y0) == vkeys(vs)[$n] && kpos(vs)[str(y0)] == $n && y1 != nil
+// Iterate walks the records under vs.prefix through State.IterateRange (assumed scan, package storage) and hands every
+// record that decodes to fn. VERIFIED on its body: the range is a prefix scan (end == Rangefix of the SAME start key,
+// C09.prefix-scan at the call of IterateRange), every element handed to fn is a decoded (non-nil) record, and the scan
+// stops early only when fn asks for it (iter-stop: a record that fails to decode is skipped, it does not cut the rest off).
+// Completeness and "each address once" are NOT claimed: the scan walks committed keys only, and a proved iterator cannot
+// number its yields ($n), so nothing here says that two yields carry different addresses.
+//@ func (*ValidatorStore).Iterate
+//@   iterator                                   // C10.scan
+//@   requires vs != nil && vs.store != nil
+//@   modifies exhausted(vs.store.cache), exhausted(vs.store.txSession)
+//@   yields y1 != nil                           // C10.scan
 
 // itemAt(row, pfx, it): the queued item it is a validator address whose record exists and decodes in the saved state
 // row (= verVal(cs)[h]) under prefix pfx, and its priority is the power recorded there
 //@ ghost func itemAt(row array[string]bytes, pfx bytes, it *utils.Queued) bool = len(row[str(pfx) + str(it.value)]) != 0 && deserok(row[str(pfx) + str(it.value)], "Validator") && it.priority == deser(row[str(pfx) + str(it.value)], "Validator").Power
-//@ ghost func qItemsAt(q utils.PriorityQueue, row array[string]bytes, pfx bytes) bool = forall k int :: 0 <= k && k < len(q) ==> itemAt(row, pfx, q[k])
+//@ ghost func qItemsAt(q utils.PriorityQueue, row array[string]bytes, pfx bytes) bool = forall i int :: { elems(q)[i] } off(q) <= i && i < off(q) + len(q) ==> itemAt(row, pfx, elems(q)[i])
 // qRow(arr(q)) / qPfx(arr(q)): ghost provenance of a queue, attached to its backing array = the saved state row and the
 // key prefix InitValidatorQueue built it from (set by its `update` clauses); qItems(q): every item of q comes from there
 //@ model qRow(utils.PriorityQueue) array[string]bytes
 //@ model qPfx(utils.PriorityQueue) bytes
-//@ ghost func qItems(q utils.PriorityQueue) bool = forall k int :: 0 <= k && k < len(q) ==> itemAt(qRow(arr(q)), qPfx(arr(q)), q[k])
+//@ ghost func qItems(q utils.PriorityQueue) bool = forall i int :: { elems(q)[i] } off(q) <= i && i < off(q) + len(q) ==> itemAt(qRow(arr(q)), qPfx(arr(q)), elems(q)[i])
 // qGood(q): the three queue facts the election loop carries, as ONE per-slot statement (one quantifier for the solver):
 // wfPQ(q) && qBound(q) && qItems(q)
-//@ ghost func qGood(q utils.PriorityQueue) bool = forall k int :: 0 <= k && k < len(q) ==> q[k] != nil && q[k].index == k && q[k].priority <= qMax(arr(q)) && itemAt(qRow(arr(q)), qPfx(arr(q)), q[k])
+//@ ghost func qGood(q utils.PriorityQueue) bool = forall i int :: { elems(q)[i] } off(q) <= i && i < off(q) + len(q) ==> elems(q)[i] != nil && as(elems(q)[i], "*utils.Queued").index == i - off(q) && as(elems(q)[i], "*utils.Queued").priority <= qMax(arr(q)) && itemAt(qRow(arr(q)), qPfx(arr(q)), elems(q)[i])
 // qFromBlock(vs, h): every queued item comes from the saved state of block h
 //@ ghost func qFromBlock(vs *ValidatorStore, h int) bool = qItemsAt(vs.queue.PriorityQueue, verVal(vs.store.cs)[h], vs.prefix)
 // qDistinct(q): the queued addresses are pairwise different
-//@ ghost func qDistinct(q utils.PriorityQueue) bool = forall k int, l int :: 0 <= k && k < l && l < len(q) ==> str(q[k].value) != str(q[l].value)
+//@ ghost func qDistinct(q utils.PriorityQueue) bool = forall i int, j int :: { elems(q)[i], elems(q)[j] } off(q) <= i && i < j && j < off(q) + len(q) ==> str(as(elems(q)[i], "*utils.Queued").value) != str(as(elems(q)[j], "*utils.Queued").value)
 
 //@ func (*ValidatorStore).InitValidatorQueue
 //@   safety C18
@@ -208,15 +212,14 @@ package identity
 //@   ensures qBound(vs.queue.PriorityQueue)                                                       // C10.higher-stake-first
 //@   ensures qRow(arr(vs.queue.PriorityQueue)) == verVal(vs.store.cs)[wrap64(vs.lastHeight - 1)]                           // C10.queue-from-prev-block
 //@   ensures qPfx(arr(vs.queue.PriorityQueue)) == vs.prefix                                                                // C10.queue-from-prev-block
-// (pairwise different queued addresses: qValIdx && wfPQ ==> qDistinct is the lemma proved on (*ValidatorQueue).Len)
-//@   ensures qValIdx(vs.queue.PriorityQueue)                                                      // C10.queue-distinct
-//@   ensures wfPQ(vs.queue.PriorityQueue)                                                         // C10.queue-distinct
+// (pairwise different queued addresses are no longer a postcondition: they rested on the ASSUMED "each address once"
+// numbering of the old Iterate contract, which the proved iterator cannot state; the lemma qValIdx && wfPQ ==> qDistinct
+// stays proved on (*ValidatorQueue).Len for whoever can supply qValIdx)
+//@   ensures wfPQ(vs.queue.PriorityQueue)                                                         // C10.queue-wf
 //@   ensures vs.prefix == old(vs.prefix) && vs.store == old(vs.store) && vs.lastHeight == old(vs.lastHeight)   // C10.frame
 //@   invariant iter1: vs == vs0 && vs.prefix == old(vs.prefix) && vs.store == old(vs.store) && vs.store.cs == old(vs.store.cs) && vs.lastHeight == old(vs.lastHeight)   // C10.frame
 //@   invariant iter1: wfPQ(vs.queue.PriorityQueue) && qAlloc(vs.queue.PriorityQueue) && arr(vs.queue.PriorityQueue) != 0   // C10.queue-wf
 //@   invariant iter1: qItemsAt(vs.queue.PriorityQueue, verVal(old(vs.store.cs))[wrap64(old(vs.lastHeight) - 1)], old(vs.prefix))   // C10.queue-from-prev-block
-//@   invariant iter1: forall k int :: 0 <= k && k < len(vs.queue.PriorityQueue) ==> 0 <= kpos(vs)[str(vs.queue.PriorityQueue[k].value)] && kpos(vs)[str(vs.queue.PriorityQueue[k].value)] < $n   // C10.queue-distinct
-//@   invariant iter1: qValIdx(vs.queue.PriorityQueue)                                              // C10.queue-distinct
 
 // ---------------------------------------------------------------- the per-block election
 //
@@ -281,7 +284,7 @@ package identity
 //@   invariant loop1: vs.prefix == old(vs.prefix) && vs.store == old(vs.store) && vs.store.cs == old(vs.store.cs) && vs.maliciousValidators == old(vs.maliciousValidators) && malSet(vs) == old(malSet(vs)) && vs.totalPower == old(vs.totalPower) && vs.lastActive == old(vs.lastActive) && vs.prefixPurge == old(vs.prefixPurge)   // C10.frame
 //@   invariant loop1: 0 <= cnt && (cnt <= stakingOptions.TopValidatorCount || cnt == 0) && activeCount == cnt   // C10.top-count
 //@   invariant loop1: len(validatorUpdates) <= cnt                                                // C10.top-count
-//@   invariant loop1: forall k int :: 0 <= k && k < len(validatorUpdates) ==> issuedOK(verVal(old(vs.store.cs))[wrap64(height - 1)], old(vs.prefix), old(malSet(vs)), minSelfDelegationAmount, validatorUpdates[k])   // C10.admission
+//@   invariant loop1: forall i int :: { elems(validatorUpdates)[i] } off(validatorUpdates) <= i && i < off(validatorUpdates) + len(validatorUpdates) ==> issuedOK(verVal(old(vs.store.cs))[wrap64(height - 1)], old(vs.prefix), old(malSet(vs)), minSelfDelegationAmount, elems(validatorUpdates)[i])   // C10.admission
 //@   invariant loop1: qNonNeg(vs.queue.PriorityQueue)                                              // C02.powers-nonneg
 //@   invariant loop1: total.Amount != nil && big(total.Amount) == old(fee(ctx.FeePool)["00000000000000000000"]) && total.Currency == ctx.FeePool.feeOpt.FeeCurrency && ctx.FeePool.feeOpt != nil   // C02.share
 //@   invariant loop1: feeTotal(ctx.FeePool) == old(feeTotal(ctx.FeePool))                          // C02.conservation
@@ -290,11 +293,11 @@ package identity
 //@   invariant loop1: (forall id string :: elems(reqRec(ctx.EvidenceStore, id).Votes) == old(elems(reqRec(ctx.EvidenceStore, id).Votes))) && arr(vs.queue.PriorityQueue) == old(arr(vs.queue.PriorityQueue))   // C19.store-wf  (the stored requests' vote arrays are not touched: wfReqAt at the call follows from the requires)
 //@   invariant loop3: 0 <= $i && $i <= len(keysLA)                                                 // C18.index
 // ---- purge loop (loop2 collects the keys of vs.lastActive, loop3 purges)
-//@   invariant loop2: forall j int :: 0 <= j && j < len(keysLA) ==> has(vs.lastActive, keysLA[j])  // C10.purge-active
+//@   invariant loop2: forall i int :: { elems(keysLA)[i] } off(keysLA) <= i && i < off(keysLA) + len(keysLA) ==> has(vs.lastActive, elems(keysLA)[i])  // C10.purge-active
 //@   invariant loop3: forall j int :: 0 <= j && j < len(keysLA) ==> has(vs.lastActive, keysLA[j])  // C10.purge-active
 //@   invariant loop3: vs.lastActive == old(vs.lastActive) && vs.prefixPurge == old(vs.prefixPurge) && vs.store == old(vs.store)   // C10.frame
-//@   invariant loop3: forall k int :: 0 <= k && k < len(validatorUpdates) ==> issuedOK(verVal(old(vs.store.cs))[wrap64(height - 1)], old(vs.prefix), old(malSet(vs)), minSelfDelegationAmount, validatorUpdates[k]) || purgedOK(mapdom(vs.lastActive), mapdom(nonTopValidators), mapval(nonTopValidators), validatorUpdates[k])   // C10.purge-rule
-//@   invariant loop3: forall k int :: 0 <= k && k < len(validatorUpdates) && validatorUpdates[k].Power != 0 ==> issuedOK(verVal(old(vs.store.cs))[wrap64(height - 1)], old(vs.prefix), old(malSet(vs)), minSelfDelegationAmount, validatorUpdates[k])   // C10.admission
+//@   invariant loop3: forall i int :: { elems(validatorUpdates)[i] } off(validatorUpdates) <= i && i < off(validatorUpdates) + len(validatorUpdates) ==> issuedOK(verVal(old(vs.store.cs))[wrap64(height - 1)], old(vs.prefix), old(malSet(vs)), minSelfDelegationAmount, elems(validatorUpdates)[i]) || purgedOK(mapdom(vs.lastActive), mapdom(nonTopValidators), mapval(nonTopValidators), elems(validatorUpdates)[i])   // C10.purge-rule
+//@   invariant loop3: forall i int :: { elems(validatorUpdates)[i] } off(validatorUpdates) <= i && i < off(validatorUpdates) + len(validatorUpdates) && elems(validatorUpdates)[i].Power != 0 ==> issuedOK(verVal(old(vs.store.cs))[wrap64(height - 1)], old(vs.prefix), old(malSet(vs)), minSelfDelegationAmount, elems(validatorUpdates)[i])   // C10.admission
 //@   invariant loop3: minSelfDelegationAmount == wrap64(old(stkOpt(ctx.Govern)).MinSelfDelegationAmount) && height == req.Height   // C10.admission
 //@   invariant loop3: forall a string :: purgeH(vs)[a] != old(purgeH(vs))[a] ==> purgeH(vs)[a] == height && has(vs.lastActive, a) && has(nonTopValidators, addrStr(a)) && purgeGuard(old(purgeH(vs))[a], height)   // C10.purge-guard
 // ---- preferring higher stake: the queue holds last block's recorded powers (qGood: priority == recorded power, and
@@ -305,4 +308,5 @@ package identity
 // by validators with at least its power).
 //@   invariant loop1: qRow(arr(vs.queue.PriorityQueue)) == verVal(old(vs.store.cs))[wrap64(height - 1)] && qPfx(arr(vs.queue.PriorityQueue)) == old(vs.prefix)   // C10.queue-from-prev-block
 //@   invariant loop1: len(validatorUpdates) > 0 ==> qMax(arr(vs.queue.PriorityQueue)) <= validatorUpdates[len(validatorUpdates) - 1].Power   // C10.higher-stake-first
-//@   invariant loop1: forall k int :: 0 <= k && k < len(validatorUpdates) ==> validatorUpdates[len(validatorUpdates) - 1].Power <= validatorUpdates[k].Power   // C10.higher-stake-first
+// (quantified over absolute positions i of the backing array, with the element read as trigger: no index arithmetic to match)
+//@   invariant loop1: forall i int :: { elems(validatorUpdates)[i] } off(validatorUpdates) <= i && i < off(validatorUpdates) + len(validatorUpdates) ==> validatorUpdates[len(validatorUpdates) - 1].Power <= elems(validatorUpdates)[i].Power   // C10.higher-stake-first
